@@ -666,8 +666,19 @@ def r5_6(run):
     run.ob("solve_temperature|nan-test-on-solution", ok, "the NaN guard tests the spsolve result", run.where(st, st.node))
     # newton_raphson computes residual_norm = max(abs(residual)) -> NaN propagates
     nr = ix.func(P + ".newton_raphson")
-    rn = assignments(nr.node, "residual_norm")
-    ok = any(U(v).replace(" ", "") == "np.max(np.abs(residual))" for _, v, _ in rn)
+    from ..arrnf import ANF, walk as twalk
+    rnr = ANF(ix, nr).run()
+    fin = ix.func(P + ".finalize_iteration")
+    ok = False
+    for c_ in rnr.calls():
+        if c_.fn == ("f", fin.qualname):
+            a_ = dict(zip(fin.params(), c_.args))
+            a_.update(dict(c_.kw))
+            v = a_.get("residual_norm")
+            # max(abs(<residual returned by the solve>)): NaN in the residual makes the norm NaN
+            ok = ok or (v is not None and v[0] == "call" and v[1] in (("x", "numpy.max"), ("x", "numpy.nanmax")) and v[1] == ("x", "numpy.max")
+                        and v[2] and v[2][0][0] == "call" and v[2][0][1] in (("x", "numpy.abs"), ("x", "numpy.absolute"))
+                        and v[2][0][2][0][0] in ("idx", "proj"))
     run.ob("newton_raphson|residual-norm-nan-propagating", ok,
            "residual_norm = np.max(np.abs(residual)) (propagates NaN)", run.where(nr, nr.node))
     run.floor(6)
